@@ -489,6 +489,14 @@ def stepWith (judge : St → Hub → Op → ImplOut → String) (st : St) (opTok
       stepPar judge st [["resume", c2, s], ["bye", c2]] implToks
     | _ => (st, "bad-op", "na")
   else
+  if opToks.head? == some "vaddrace" then
+    -- vaddrace sN room key user c2: the same for an internal session whose request to add a virtual session is
+    -- waiting for the backend: the virtual session must not come into being after its internal client ended
+    match opToks with
+    | [_, s, _, _, _, c2] =>
+      stepPar judge st [["resume", c2, s], ["bye", c2]] implToks
+    | _ => (st, "bad-op", "na")
+  else
   if opToks.head? == some "fed" then
     -- the list of federated sessions is not part of the model: nothing changes, the judge looks at the list
     let impl := parseImpl implToks
